@@ -71,6 +71,14 @@ def check_case(out: Outcome, case, tag):
     cum = np.array(tr.cumulative_displacements)
     n_before = len(out.failures)
     predicates(out, case, coords, pos, disp, cum)
+    # a sub-trajectory (frames a..end of the same object) is a trajectory too: same clauses, displacements read BEFORE positions
+    if T >= 3 and len(out.failures) == n_before:
+        a0 = 1 + (A + T) % (T - 1)
+        sub = tr[a0:]
+        sd = np.array(sub.displacements)
+        sc_ = np.array(sub.cumulative_displacements)
+        sp_ = np.array(sub.positions)
+        predicates(out, {**case, 'sub_trajectory_from_frame': a0}, coords[a0:], sp_, sd, sc_)
     prop_failed = len(out.failures) > n_before
     for n, t, why in diffs:
         # positions / displacements / cumulative displacements are pinned by the statement (model = spec by theorem)
